@@ -33,6 +33,20 @@ Theorem C05_consume_drops_refused :
 Proof. exact (fun shuf => consume_drops_refused_lemma shuf 0%nat). Qed.
 Print Assumptions C05_consume_drops_refused.
 
+(* T1', per attempt (flaky backends included): in every reachable state - any history,
+   schedule, modes, failure table and flaky script - the tracks announced as started, the
+   current entry and the entry left pending by an operation all have an ACCEPTED
+   change_track call in the attempt log (which the correspondence compares with the real
+   backend's log after every operation): a track that was only ever refused is never selected. *)
+Theorem C05_only_accepted_selected :
+  forall shuf fuel mx kinds lens scr vol mut ops,
+  let w := run_world shuf fuel (init_world mx kinds lens scr vol mut) ops in
+  (forall t, In (EvStarted t) (events w) -> In (trk t, true) (attempts w))
+  /\ (forall c, current w = Some c -> In (trk c, true) (attempts w))
+  /\ (forall p, pending w = Some p -> In (trk p, true) (attempts w)).
+Proof. exact accepted_only_selected_lemma. Qed.
+Print Assumptions C05_only_accepted_selected.
+
 (* T6: next() tries the FOLLOWING candidates: for every tracklist pre ++ c :: us ++ x :: post
    without duplicate IDs in which every entry of us is unplayable in any of the four ways
    (backend refuses, no URI, raises, no backend for the scheme) and x is playable, next() from a
